@@ -37,5 +37,7 @@ def write(prop, tier, seed, cfg, C, sigs, samples, notes, known, n_new, wall, in
         "wall_s": round(wall, 2),
         "violations": int(n_new),
     }
-    os.makedirs(common.EVIDENCE, exist_ok=True)
-    common.dump_file(common.plain(ev), os.path.join(common.EVIDENCE, prop + ".json"), indent=1)
+    # evidence/ describes /repo only; a run against another tree (VERIF_REPO=...) writes to a scratch directory
+    outdir = common.EVIDENCE if os.path.realpath(common.REPO) == "/repo" else os.path.join(common.WORK, "evidence-other-tree")
+    os.makedirs(outdir, exist_ok=True)
+    common.dump_file(common.plain(ev), os.path.join(outdir, prop + ".json"), indent=1)
